@@ -68,6 +68,7 @@ impl Prop for C04 {
         };
         // events that some removal / deletion / vanish may legitimately have made unretrievable
         let mut touched: BTreeSet<String> = BTreeSet::new();
+        let mut touched_addrs: BTreeSet<(u16, String, String)> = BTreeSet::new();
         let mut stored_ok: BTreeSet<usize> = BTreeSet::new();
         let mut reread_after_growth = false;
         for (stepno, op) in c.ops.iter().enumerate() {
@@ -88,6 +89,32 @@ impl Prop for C04 {
                             if t.len() >= 2 && t[0] == "e" {
                                 let _ = touched.insert(t[1].to_lowercase());
                             }
+                            // a deletion by address may remove every event at that address
+                            if t.len() >= 2 && t[0] == "a" {
+                                if let Some(mut a) = crate::model::parse_addr(&t[1]) {
+                                    if crate::model::kind_is_replaceable(a.0) {
+                                        // for non-parameterised kinds the d part is not part of the address
+                                        a.2 = String::new();
+                                    }
+                                    for x in &w.events {
+                                        if World::address_of(x).as_ref() == Some(&a) {
+                                            let _ = touched.insert(x.id.clone());
+                                        }
+                                    }
+                                    let _ = touched_addrs.insert(a);
+                                }
+                            }
+                        }
+                    }
+                    // a store at a replaceable address may displace (or be refused in favour of) the events at that address
+                    if let Some(a) = World::address_of(e) {
+                        for (j, x) in w.events.iter().enumerate() {
+                            if j != *i && World::address_of(x).as_ref() == Some(&a) {
+                                let _ = touched.insert(x.id.clone());
+                            }
+                        }
+                        if touched_addrs.contains(&a) {
+                            let _ = touched.insert(e.id.clone());
                         }
                     }
                     if res.is_ok() {
@@ -158,7 +185,8 @@ impl Prop for C04 {
             // regular events that nothing has named are still there by id
             for i in &stored_ok {
                 let e = &w.events[*i];
-                if crate::model::kind_is_replaceable(e.kind) || crate::model::kind_is_param_replaceable(e.kind) || crate::model::kind_is_ephemeral(e.kind) || touched.contains(&e.id) {
+                // replaceable events count too, as long as nothing was stored at (or deleted for) their own address since
+                if crate::model::kind_is_ephemeral(e.kind) || touched.contains(&e.id) {
                     continue;
                 }
                 match (w.get_by_id(&e.id), w.has(&e.id)) {
